@@ -93,6 +93,8 @@ class NetBase:
 
         def on_disconnect(reason):
             drv.trace.append(('ev', 'disconnect', reason))
+            if getattr(drv, 'disconnect_action', None) == 'disconnect':
+                sync_calls['disconnect']()
             if drv.disconnect_raises:
                 raise RuntimeError('disconnect handler raises')
         return on_connect, on_message, on_disconnect
@@ -445,6 +447,8 @@ class AsyncClientDriver(NetBase):
 
         async def on_disconnect(reason):
             drv2.trace.append(('ev', 'disconnect', reason))
+            if getattr(drv2, 'disconnect_action', None) == 'disconnect':
+                await self.c.disconnect()
             if drv2.disconnect_raises:
                 raise RuntimeError('disconnect handler raises')
         self.c.on('connect', on_connect)
